@@ -56,4 +56,20 @@ CLAIMS = {
         'technique': 'static analysis: must-pass-through on an exception-edge CFG, who-may-call / who-writes '
                      'ownership sweeps (ast only)',
     },
+    'C04': {
+        'text': "Containment is decided on the exception-edge CFG of every function in pedal/sandbox that calls "
+                "exec/eval/compile: no Exception atom or SystemExit may reach the caller, or the function must be "
+                "referenced only from closures installed as student-visible builtins. Handler discipline (release, "
+                "exactly one capture with the caught exception, normal return), the single runtime feedback "
+                "constructor in _capture_exception and its EXCEPTION_FF_MAP table (all rows runtime_error "
+                "subclasses of category 'runtime'), absence of any other Feedback construction in the resolved call "
+                "closure, an interprocedural taint of the student's exception object through resolved callees "
+                "requiring every string conversion of it to be guarded, template field scans, and the default "
+                "block list with its refusing paths are all extracted from the source.",
+        'note': _NOTE + "Not decided: unbounded recursion, interpreter exit other than SystemExit, resource "
+                        "exhaustion; hostile protocols other than string conversion; that the reported line is the "
+                        "student's line beyond provenance (C17).",
+        'technique': 'static analysis: exception-edge CFG reachability, resolved call-graph closure, '
+                     'interprocedural taint of the exception object, table extraction (ast only)',
+    },
 }
